@@ -154,8 +154,11 @@ CHECKS = {
              "methods, and return codes, notifications, stream-hook callbacks, forwarding and the stat listing after "
              "every step are decided by TLC.",
         note="Sessions are real lal session objects on in-memory connections handed to the real callbacks (accept loops "
-             "are not part of the scenario); Tick runs through the verif hook VerifTick (a copy of the loop body); relay "
-             "pull interleavings are covered by C17.",
+             "are not part of the scenario; RTSP publishers run through rtsp.Server's own per-connection routine); "
+             "subscribers are RTMP, HTTP-FLV and HTTP-TS sessions (RTSP / HLS subscribers are not part of this model); "
+             "notifications are observed at the NotifyHandler interface and, in configurations L4 / P5, as the JSON posts "
+             "of lal's own HttpNotify worker at a stub web hook; Tick runs through the verif hook VerifTick (a copy of the "
+             "loop body); relay pull / push interleavings are covered by C17 (pull configurations P3 / P4 / P5 also here).",
         ref="6/C03"),
     "C07": dict(
         technique="TLA+ spec Ingest (property Conforms + design Machine; TLC exhaustive over streams x packings x arrival "
